@@ -205,4 +205,42 @@ Section Term.
       + apply in_map_iff in H. destruct H as (? & Heq & _). discriminate Heq.
       + unfold Proto2.upd_status in H. cbn in H. destruct H as [H|[H|[]]]; [discriminate H|]. injection H as <-. cbn. auto.
   Qed.
+  (** * Re-synchronisation, step level *)
+  Lemma fold_devs (evs : list devev) : forall w : world,
+    cfgs (fold_left apply_eff (map (@EDev V Ch Req) evs) w) = cfgs w /\ devlog (fold_left apply_eff (map (@EDev V Ch Req) evs) w) = devlog w ++ evs.
+  Proof.
+    induction evs as [|ev evs IH]; intros w; cbn [map fold_left]; [split; [reflexivity|symmetry; apply app_nil_r]|].
+    destruct (IH (apply_eff w (EDev ev))) as [Hc Hd]. rewrite Hc, Hd, cfgs_apply_eff, devlog_apply_eff.
+    split; [reflexivity|]. rewrite <- app_assoc. reflexivity.
+  Qed.
+
+  (* the step that raises the applied term of a non-persistent target with something applied appends the COMPLETE
+     re-push to the device log, every request in the current term over the master's connection and answered OK *)
+  Theorem resync_step (w : world) l t (C C' : config) :
+    cfgs w !! t = Some C -> targets w !! t = Some false -> c_applied C <> 0 ->
+    cfgs (step w l) !! t = Some C' -> c_aterm C' <> c_aterm C ->
+    exists m rs, c_master C = Some m /\ resync_payload (aview C) = map Some rs /\
+      devlog (step w l) = devlog w ++ map (fun r => DevSet t m (c_term C) None r COk) rs.
+  Proof.
+    intros HC HT Happ HC' Hne.
+    destruct (aterm_moves_by_sync _ _ _ _ _ HC HC' Hne) as (_ & _ & (k & o & ->) & [Hp|(_ & Hst & _ & _)]); [congruence|].
+    cbn [Proto2.step Proto2.reconcile] in HC' |- *.
+    pose proof HC' as Hpre. apply cfg_prefix in Hpre.
+    destruct Hpre as [(C0 & HC0 & S)|[(c & Hin & S)|(c & _ & Hn & _)]]; [| |congruence].
+    { rewrite HC in HC0. injection HC0 as <-. apply sim_fields in S. destruct S as (_ & _ & _ & _ & _ & _ & _ & _ & S9). congruence. }
+    destruct (resync_completes o w t C c HC HT Hst Happ Hin) as (m & rs & Hm & Hrs & Hes & _).
+    exists m, rs. split; [exact Hm|]. split; [exact Hrs|].
+    rewrite Hes in HC' |- *. clear Hes Hin.
+    set (evs := map (fun r => DevSet t m (c_term C) None r COk) rs).
+    replace (map (fun r => EDev (DevSet t m (c_term C) None r COk)) rs) with (map (@EDev V Ch Req) evs) in * by (unfold evs; rewrite map_map; reflexivity).
+    unfold Proto2.upd_status in *.
+    rewrite firstn_app, fold_left_app in HC' |- *. rewrite map_length in HC' |- *. rewrite firstn_map in HC' |- *.
+    destruct (fold_devs (firstn k evs) w) as [Hc1 Hd1].
+    set (w1 := fold_left apply_eff (map (@EDev V Ch Req) (firstn k evs)) w) in *.
+    destruct (k - length evs)%nat as [|[|j]] eqn:Hk.
+    - exfalso. cbn [firstn fold_left] in HC'. rewrite Hc1, HC in HC'. injection HC' as <-. congruence.
+    - exfalso. cbn [firstn fold_left] in HC'. rewrite cfgs_apply_eff, Hc1, HC, lookup_insert in HC'. injection HC' as <-. cbn in Hne. congruence.
+    - cbn [firstn fold_left]. rewrite firstn_nil. cbn [fold_left]. rewrite !devlog_apply_eff, Hd1.
+      rewrite firstn_all2 by lia. reflexivity.
+  Qed.
 End Term.
